@@ -4,7 +4,7 @@ import json, os, sys
 VERIF = os.path.dirname(os.path.dirname(os.path.abspath(__file__)))
 props = [json.loads(l) for l in open(os.path.join(VERIF, "properties.jsonl"))]
 
-COMMON_NOTE = ("Tie T0 (proved): the C source is translated to Lean on every run (tools/c2lean.py, trusted) and proved to refine the model (lean/RdsProps/Refinement.lean: crun_refines); "
+COMMON_NOTE = ("Tie T0 (proved): the C source of the whole public API incl. rdsparser_parse_string (over trusted Lean models of strlen/isxdigit/strtol) is translated to Lean on every run (tools/c2lean.py, trusted) and proved to refine the model (lean/RdsProps/Refinement.lean: crun_refines; the property is restated over the record of the translated C, *_source); "
                "a broken refinement lemma about a C function this property's proof rests on is a broken obligation of this check. "
                "Trusted: Lean 4.33 kernel; axioms audited per run to be within {propext, Classical.choice, Quot.sound} (no native_decide/bv_decide/sorry/own axioms); "
                "the statements in lean/RdsSpec (Monitors.lean, Statements.lean) and reference tables (Reference.lean); the tie: tables regenerated from the compiled "
@@ -21,38 +21,38 @@ claim("C01", "Theorem RDS.C01: for every table configuration, every op list from
       "correspondence on (pi,pty,tp,ta,ms) incl. the exhaustive sweep of all 65 536 block-B values.", "Lean 4 proof: refinement to an abstract reference machine + invariant induction; differential correspondence + trace monitor", "§6 C01")
 claim("C02", "Theorem RDS.C02 (every cell of all four texts after any call equals the closed form expectedText/cellSpec; C02_error_free for error-free receptions) for all histories; "
       "charset table theorem over the regenerated table; exhaustive sweep of 256 bytes x every lane x every address x every text-carrying group.", "Lean 4 proof: closed-form refinement of the text handlers + kernel-checked table theorem; correspondence sweep", "§6 C02")
-claim("C03", "Theorems RDS.C03_process / C03_trace / C03_uncorrectable: non-interference (same successor state and same event list) for every state, group and replacement of unused blocks, lifted to op lists; "
+claim("C03", "Theorems RDS.C03_process / C03_trace / C03_uncorrectable: non-interference (same successor state and same event list) for every state, group and replacement of unused blocks, lifted to op lists; C03_process_typed / C03_process' (type-aware reading of 'block B unused', two-sided, error codes of unused blocks free); "
       "on the implementation: twin runs differing only in don't-care blocks compared record by record.", "Lean 4 proof of a 2-safety (non-interference) theorem; twin-run differential testing of the implementation", "§6 C03")
-claim("C05", "PARTIAL. Proved: the index arithmetic (every addressed cell index and AF index is in range for every block value, the out-of-range outcome of the model is unreachable in reachable states, stores keep lengths). "
+claim("C05", "PARTIAL. Proved: the index arithmetic (every addressed cell index and AF index is in range for every block value, the out-of-range outcome of the model is unreachable in reachable states, stores keep lengths; C05_no_oob_process / C05_af_index_process: an instrumented mirror of process records every cell store and AF bitmap index and none is out of range for any history and any group). "
       "Not provable in a pure model and only exercised: out-of-bounds accesses not explained by index arithmetic, uninitialised reads, UB, libc, allocator — by ASan+UBSan on every run (error codes 0..255, strings of length 0..4096 at exact size, NULL, all threshold values, canaries around caller storage, malloc failure, free(NULL)), MSan/valgrind in the thorough tier.",
       "Lean 4 proof of index-safety lemmas + sanitizer-instrumented fault/exploration runs (partial)", "§6 C05", "PARTIAL: runtime memory safety is sampled by sanitizers, not proved.")
 claim("C06", "Theorem RDS.C06 (= closed form cellSpec for every addressed cell, all histories), updateSingle_cellSpec, C06_weight, C06_special_error_free; exhaustive sweep thresholds x progressive x error pairs 0..4 x 256 bytes x 4 prior cell states per text.",
       "Lean 4 proof: closed-form refinement; exhaustive correspondence sweep", "§6 C06")
-claim("C07", "Theorem RDS.C07 (chkC07 for all histories: no level of a progressive text increases except on resets of that buffer), C07_cell, C07_error_free_stable.", "Lean 4 proof: per-step monotonicity from the closed form; correspondence + monitor", "§6 C07")
+claim("C07", "Theorem RDS.C07 (chkC07 for all histories: no level of a progressive text increases except on resets of that buffer), C07_cell, C07_error_free_stable; history level: C07_history_text/_rt/_ps/_ptyn, C07_char_replaced_only_by_not_worse, C07_error_free_sticky(_history), C07_converges and C07_converges_string (convergence regardless of interleaved corrected receptions).", "Lean 4 proof: per-step monotonicity from the closed form; correspondence + monitor", "§6 C07")
 claim("C08", "Theorem RDS.C08 (expectedText incl. switch-discard and noisy-flag rules, all histories; lastFlag linked to the model by the invariant Link), C08_other_buffer, C08_noisy, C08_first_flag.", "Lean 4 proof: closed-form refinement + history invariant; correspondence + monitor", "§6 C08")
-claim("C09", "Theorem RDS.C09 (chkC09 for all histories in which the extended check was in force for every reception since the last reset), C09_two_consecutive, C09_single_never_visible; twin runs for text/CT independence of the mode.",
+claim("C09", "Theorem RDS.C09 (chkC09 for all histories in which the extended check was in force for every reception since the last reset), C09_worded / C09_worded' / C09_worded_country (own-words reading incl. country, check enabled in any reset state), C09_text_indep_trace (text and clock-time behaviour independent of the mode along whole traces); twin runs for the same on the implementation.",
       "Lean 4 proof: refinement to an abstract reference machine (two-consecutive rule, AF counting); correspondence + monitor + twin runs", "§6 C09")
 claim("C10", "Theorem RDS.C10 (AF bitmap = codes counted >= 1 / >= 2 by the abstract machine, all histories), C10_only_valid_codes; exhaustive sweep of all 65 536 block-C values in both modes.", "Lean 4 proof: refinement with counting invariant; exhaustive correspondence sweep", "§6 C10")
 claim("C12", "Theorem RDS.C12 (chkC12 for all histories: exactly-one/none, valid Gregorian date, instant identity), civilFromDays_correct for EVERY day number, ctInit_correct/_reject; sweep of all 2^17 MJD values through the public API.",
       "Lean 4 proof: calendar arithmetic (monotonicity + 400-entry kernel-checked table + omega); correspondence sweep + monitor", "§6 C12")
 claim("C13", "Theorems RDS.C13_clear_state (state equality with the fresh state, hidden candidates included), C13_continuation, C13 (getter clause, all histories); twin runs pre++clear++post vs fresh+settings++post on the implementation.",
       "Lean 4 proof: state equality + trace corollary; twin-run differential testing", "§6 C13")
-claim("C14", "Theorems RDS.C14_accept_iff, C14_decoded, C14_equiv, C14_reject, C14 (all histories); malformed stream (every position x every byte value), all 65 536 four-digit blocks, twin runs string vs binary.",
+claim("C14", "Theorems RDS.C14_accept_iff, C14_decoded, C14_equiv, C14_reject, C14 (all histories); T0: utils_convert_refines / parse_string_refines / C14_source prove that utils.c over a faithful model of strtol (white space, sign, 0x prefix, clamping) IS the strict decoder; malformed stream (every position x every byte value), stateful malformed stream, all 65 536 four-digit blocks, twin runs string vs binary.",
       "Lean 4 proof: characterisation of the decoder + equivalence; exhaustive malformed-input sweep + twin runs", "§6 C14")
-claim("C15", "Theorems RDS.C15_state/_observer/_ret/_events/_ud/_run (erasure of the observer table commutes with every step; events = all-listening events filtered by registration), C15 (all histories); twin runs with different observer schedules.",
+claim("C15", "Theorems RDS.C15_state/_observer/_ret/_events/_ud/_run (erasure of the observer table commutes with every step; events = all-listening events filtered by registration), C15 (all histories); twin runs with different observer schedules, incl. callbacks that re-register other callbacks and change the user data from inside the callback.",
       "Lean 4 proof: erasure/commutation (non-interference of observers); twin-run differential testing + monitor", "§6 C15")
-claim("C16", "Theorem RDS.C16 (chkC16 after every call of every history) from the invariant WF (wf_run).", "Lean 4 proof: invariant by induction over operations; correspondence + monitor", "§6 C16")
-claim("C17", "Theorem RDS.C17 (settings = last written per key, clamped, all histories), C17_clamp; sweep of every key x all 256 values.", "Lean 4 proof: refinement to the abstract settings record; exhaustive setter sweep", "§6 C17")
+claim("C16", "Theorem RDS.C16 (chkC16 after every call of every history) from the invariant WF (wf_run); C16_level_received / C16_available_received (a cell counts as received iff an accepted reception addressed it since the last reset of that text, as a function of the op list alone).", "Lean 4 proof: invariant by induction over operations; correspondence + monitor", "§6 C16")
+claim("C17", "Theorem RDS.C17 (settings = last written per key, clamped, all histories), C17_clamp, C17_settings_frame and C17_set*_only (a write changes its own key only and no decoded data); sweep of every key x all 256 values.", "Lean 4 proof: refinement to the abstract settings record; exhaustive setter sweep", "§6 C17")
 claim("C19", "PARTIAL. Proved on the multi-instance model: C19_isolation (any interleaving = each instance's own subsequence), C19_other_slots, C19_select, C19_cur. The content of C19 for the implementation (no state outside the struct, no data race) cannot be exhibited by a pure model: "
       "exercised by interleaved-vs-solo twin runs, the writable-segment immutability check and gcc TSan (thorough).", "Lean 4 proof of isolation on the multi-instance model + twin runs, segment diff, TSan (partial)", "§6 C19", "PARTIAL: thread schedules and hidden global state are sampled, not proved.")
 
 claim("C04", "Theorems RDS.C04 (chkC04 for all histories: per registered callback, invocation count = 1 iff that field's getter result changed, RT additionally on a switch discard, AF = exactly the newly listed codes as 87500+100*code, at most two; every event shows its own field at its final value) and RDS.C04_redeliver (immediate re-delivery in normal mode notifies nothing but clock time and changes no getter).",
       "Lean 4 proof: per-handler event/change characterisation composed over process; correspondence + monitor (incl. getter values sampled inside callbacks)", "§6 C04")
-claim("C11", "Theorems RDS.C11 / C11_generated (ECC and country follow the abstract fields fed only by 1A variant 0 with error-free B and C; country always a valid enumerator, all histories) and the table theorems C11_table (= IEC 62106-4 reference on all 17x256 cells), C11_unknown, C11_range, eccOk over the table regenerated from the compiled library.",
+claim("C11", "Theorems RDS.C11 / C11_generated (ECC and country follow the abstract fields fed only by 1A variant 0 with error-free B and C; country always a valid enumerator, all histories) and the table theorems C11_table (= IEC 62106-4 reference on all 17x256 cells), C11_unknown, C11_range, eccOk over the table regenerated from the compiled library; C11_frame (no other call changes ECC or country, any state).",
       "Lean 4 proof: refinement + kernel-checked table theorem over the regenerated table (T1); sweep 17 PI classes x 256 ECC x 8 variants x 2 versions", "§6 C11")
-claim("C18", "Kernel-checked theorems over the complete input/output graph of the five lookup functions read out of the compiled library (all 256 arguments each): C18_pty, C18_pty_width, C18_country_name, C18_country_iso, C18_iso_two_letters, C18_iso_distinct against the hand-written PTY / ISO 3166-1 reference. Exhaustive: the domain is finite and fully enumerated on every run (ASan build: non-NULL, NUL-terminated).",
+claim("C18", "Kernel-checked theorems over the complete input/output graph of the five lookup functions read out of the compiled library (all 256 arguments each): C18_pty, C18_pty_width, C18_country_name, C18_country_iso, C18_iso_two_letters, C18_iso_distinct against the hand-written PTY / ISO 3166-1 reference. Exhaustive: the domain is finite and fully enumerated on every run (ASan build: non-NULL, NUL-terminated; every returned pointer is kept and re-read after all other lookups: constant strings).",
       "Lean 4 kernel-checked table theorems over exhaustively extracted lookup graphs (T1)", "§6 C18")
-claim("C20", "PARTIAL + KNOWN FINDING. Proved: every history theorem for both charset instantiations (*_generated), the narrow build's character rule read out of the real build (C20_narrow_table/_is_conv), equal constants/tables across builds (C20_consts), C20_ascii / C20_ascii_step (on histories presenting no byte >= 0x7F the narrow state seen through the character embedding IS the wide state, same results and callbacks) and C20_nontext / C20_nontext_step (for ALL histories everything but text characters/levels, incl. which cells are received, and all non-text callbacks are identical), both also instantiated for the regenerated table. "
+claim("C20", "PARTIAL + KNOWN FINDING. Proved: every history theorem for both charset instantiations (*_generated), the narrow build's character rule read out of the real build (C20_narrow_table/_is_conv), equal constants/tables across builds (C20_consts), C20_ascii / C20_ascii_step / C20_ascii' (on histories presenting no error-free byte >= 0x7F the narrow state seen through the character embedding IS the wide state, same results and callbacks) and C20_nontext / C20_nontext_step (for ALL histories everything but text characters/levels, incl. which cells are received, and all non-text callbacks are identical), both also instantiated for the regenerated table. "
       "C20_full_false: the full statement (every level and callback identical) is FALSE of the code and of the model — recorded in known_findings.json by its witness. On every run the four real builds are compared with their own instantiation and with each other; any build-specific divergence other than the known finding is a violation.",
       "Lean 4 proof (generic-in-configuration theorems, simulation between the two charset instantiations, kernel-checked counter-example) + cross-build differential testing of the four real builds", "§6 C20", "PARTIAL: the full statement is refuted (known finding C20-same-data-on-converted-chars); the no-heap build and cross-build identity are tested, not proved.")
 
